@@ -2,7 +2,9 @@ package rules
 
 import (
 	"fmt"
+	"go/constant"
 	"go/token"
+	"go/types"
 	"sort"
 	"strings"
 
@@ -836,4 +838,643 @@ func iteratorHygiene(r *core.Run, rule string, funcs []*ssa.Function) {
 		})
 	}
 	r.Ok(rule, "iterator-census", "", fmt.Sprintf("%d raw Iterator/ReverseIterator call sites examined in %d functions", n, len(funcs)))
+}
+
+// decToIntConversions walks the computation of v backwards (through helpers) and returns the names of the
+// sdk.Dec -> integer conversions it passes (TruncateInt, RoundInt, Ceil, ...).
+func decToIntConversions(p *core.Program, v ssa.Value) []string {
+	set := map[string]bool{}
+	seen := map[ssa.Value]bool{}
+	var walk func(x ssa.Value, depth int)
+	walk = func(x ssa.Value, depth int) {
+		if x == nil || seen[x] || depth > 40 {
+			return
+		}
+		seen[x] = true
+		switch y := x.(type) {
+		case *ssa.Parameter:
+			// the value is handed in: follow it to the arguments at the call sites of this function
+			fn := y.Parent()
+			idx := -1
+			for i, prm := range fn.Params {
+				if prm == y {
+					idx = i
+				}
+			}
+			for _, caller := range p.CG().In[fn] {
+				allInstrs(caller, func(in ssa.Instruction) {
+					cs, ok := in.(ssa.CallInstruction)
+					if !ok {
+						return
+					}
+					for _, cal := range p.Callees(cs) {
+						if cal != fn {
+							continue
+						}
+						c := cs.Common()
+						var actuals []ssa.Value
+						if c.IsInvoke() {
+							actuals = append(actuals, c.Value)
+						}
+						actuals = append(actuals, c.Args...)
+						if idx >= 0 && idx < len(actuals) {
+							walk(actuals[idx], depth+4)
+						}
+					}
+				})
+			}
+		case *ssa.Call:
+			name := core.CalleeFullName(y)
+			for _, m := range []string{"TruncateInt", "TruncateInt64", "RoundInt", "RoundInt64", "Ceil", "TruncateDec"} {
+				if strings.HasSuffix(name, "types.Dec)."+m) {
+					set[m] = true
+				}
+			}
+			if y.Call.IsInvoke() {
+				walk(y.Call.Value, depth+1)
+			}
+			for _, a := range y.Call.Args {
+				walk(a, depth+1)
+			}
+			for _, cal := range p.Callees(y) {
+				for _, b := range cal.Blocks {
+					if ret, ok := b.Instrs[len(b.Instrs)-1].(*ssa.Return); ok {
+						for _, rv := range ret.Results {
+							walk(rv, depth+1)
+						}
+					}
+				}
+			}
+		case *ssa.Phi:
+			for _, e := range y.Edges {
+				walk(e, depth+1)
+			}
+		case *ssa.Extract:
+			walk(y.Tuple, depth+1)
+		case *ssa.UnOp:
+			if al, ok := y.X.(*ssa.Alloc); ok {
+				for _, ref := range *al.Referrers() {
+					if st, ok := ref.(*ssa.Store); ok && st.Addr == al {
+						walk(st.Val, depth+1)
+					}
+				}
+				// array literal elements (varargs)
+				for _, ref := range *al.Referrers() {
+					if ia, ok := ref.(*ssa.IndexAddr); ok {
+						for _, r2 := range *ia.Referrers() {
+							if st, ok := r2.(*ssa.Store); ok {
+								walk(st.Val, depth+1)
+							}
+						}
+					}
+				}
+			}
+			walk(y.X, depth+1)
+		case *ssa.Slice:
+			walk(y.X, depth+1)
+		case *ssa.Alloc:
+			for _, ref := range *y.Referrers() {
+				switch r2 := ref.(type) {
+				case *ssa.Store:
+					if r2.Addr == y {
+						walk(r2.Val, depth+1)
+					}
+				case *ssa.IndexAddr:
+					for _, r3 := range *r2.Referrers() {
+						if st, ok := r3.(*ssa.Store); ok {
+							walk(st.Val, depth+1)
+						}
+					}
+				case *ssa.FieldAddr:
+					for _, r3 := range *r2.Referrers() {
+						if st, ok := r3.(*ssa.Store); ok {
+							walk(st.Val, depth+1)
+						}
+					}
+				}
+			}
+		case *ssa.Field:
+			walk(y.X, depth+1)
+		case *ssa.FieldAddr:
+			walk(y.X, depth+1)
+		case *ssa.BinOp:
+			walk(y.X, depth+1)
+			walk(y.Y, depth+1)
+		case *ssa.Convert:
+			walk(y.X, depth+1)
+		case *ssa.ChangeType:
+			walk(y.X, depth+1)
+		case *ssa.MakeInterface:
+			walk(y.X, depth+1)
+		}
+	}
+	walk(v, 0)
+	return sortedKeys(set)
+}
+
+// roundsDown: the amount is a share computed in decimals and converted by truncation only (never to nearest or up):
+// the sum of such shares cannot exceed the whole.
+func roundsDown(r *core.Run, rule, construct string, amount ssa.Value, pos string) {
+	conv := decToIntConversions(r.Prog, amount)
+	bad := ""
+	trunc := false
+	for _, c := range conv {
+		if strings.HasPrefix(c, "Truncate") {
+			trunc = true
+		} else {
+			bad = c
+		}
+	}
+	r.Check(bad == "" && trunc, rule, construct, pos, "the share is converted to whole units by truncation only ("+strings.Join(conv, ", ")+")", "the share is converted to whole units by "+strings.Join(conv, ", ")+": shares rounded to nearest or up can add up to more than the amount they divide")
+}
+
+// paramsGetterFaithful: the module's GetParams returns exactly what the parameter store holds: one GetParamSet(IfExists)
+// into a local, that local returned on every path, nothing else written into it and nothing else returned (no default
+// standing in for a stored zero, no process-local cache).
+func paramsGetterFaithful(r *core.Run, rule, module string) {
+	p := r.Prog
+	fn := p.FuncByName("x/"+module+"/keeper", "Keeper", "GetParams")
+	construct := module + ":params-getter-faithful"
+	if fn == nil {
+		r.Undecided(rule, construct, "", "Keeper.GetParams not found")
+		return
+	}
+	r.Analysed(core.FnName(fn))
+	var target *ssa.Alloc
+	nGet := 0
+	allInstrs(fn, func(in ssa.Instruction) {
+		c, ok := in.(ssa.CallInstruction)
+		if !ok {
+			return
+		}
+		name := core.CalleeFullName(c)
+		if strings.HasSuffix(name, "Subspace).GetParamSet") || strings.HasSuffix(name, "Subspace).GetParamSetIfExists") {
+			nGet++
+			args := c.Common().Args
+			last := args[len(args)-1]
+			if mi, ok := last.(*ssa.MakeInterface); ok {
+				last = mi.X
+			}
+			if al, ok := last.(*ssa.Alloc); ok {
+				target = al
+			}
+		}
+	})
+	if nGet != 1 || target == nil {
+		r.Violation(rule, construct, p.Pos(fn.Pos()), fmt.Sprintf("GetParams does not read the parameter set into a local exactly once (%d reads)", nGet))
+		return
+	}
+	bad := ""
+	// nothing else writes the local
+	var scan func(addr ssa.Value)
+	scan = func(addr ssa.Value) {
+		refs := addr.Referrers()
+		if refs == nil {
+			return
+		}
+		for _, ref := range *refs {
+			switch x := ref.(type) {
+			case *ssa.Store:
+				if x.Addr == addr {
+					if u, isLoad := x.Val.(*ssa.UnOp); isLoad && u.X == addr {
+						continue // `return params`: the named result assigned to itself
+					}
+					if c, isC := x.Val.(*ssa.Const); !(isC && c.Value == nil) && !isZeroInit(x.Val) {
+						bad = "a value is written into the result besides the parameter store read at " + p.InstrPos(x)
+					}
+				}
+			case *ssa.FieldAddr:
+				scan(x)
+			}
+		}
+	}
+	scan(target)
+	// every return returns that local
+	for _, b := range fn.Blocks {
+		ret, ok := b.Instrs[len(b.Instrs)-1].(*ssa.Return)
+		if !ok {
+			continue
+		}
+		for _, rv := range ret.Results {
+			u, ok := rv.(*ssa.UnOp)
+			if !ok || u.X != ssa.Value(target) {
+				bad = "a return yields something other than the parameter set just read (" + p.InstrPos(ret) + ")"
+			}
+		}
+	}
+	r.Check(bad == "", rule, construct, p.Pos(fn.Pos()), "GetParams returns the parameter set read from the parameter store, unmodified", "GetParams is not a faithful read of the parameter store: "+bad+" — a default replacing a stored 0, or a process-local copy, makes the values used differ from the governance-set ones (and between nodes)")
+}
+
+func isZeroInit(v ssa.Value) bool {
+	c, ok := v.(*ssa.Const)
+	return ok && c.Value == nil
+}
+
+// processLocalState: consensus code must not keep state outside the stores: no write to a package-level variable
+// and no write through a pointer or map held in a Keeper field.
+func processLocalState(r *core.Run, rule string, funcs []*ssa.Function) {
+	p := r.Prog
+	fromKeeperField := func(v ssa.Value) bool {
+		for i := 0; i < 8 && v != nil; i++ {
+			switch x := v.(type) {
+			case *ssa.FieldAddr:
+				if strings.HasSuffix(core.TypeName(x.X.Type()), "keeper.Keeper") {
+					return true
+				}
+				v = x.X
+			case *ssa.Field:
+				if strings.HasSuffix(core.TypeName(x.X.Type()), "keeper.Keeper") {
+					return true
+				}
+				v = x.X
+			case *ssa.UnOp:
+				v = x.X
+			case *ssa.IndexAddr:
+				v = x.X
+			default:
+				return false
+			}
+		}
+		return false
+	}
+	n := 0
+	for _, fn := range funcs {
+		if fn.Name() == "init" || strings.HasPrefix(fn.Name(), "New") || fn.Synthetic != "" {
+			continue // construction time, not block processing
+		}
+		allInstrs(fn, func(in ssa.Instruction) {
+			switch x := in.(type) {
+			case *ssa.Store:
+				n++
+				root := x.Addr
+				for i := 0; i < 8; i++ {
+					if fa, ok := root.(*ssa.FieldAddr); ok {
+						root = fa.X
+					} else if ia, ok := root.(*ssa.IndexAddr); ok {
+						root = ia.X
+					} else {
+						break
+					}
+				}
+				if g, ok := root.(*ssa.Global); ok && g.Pkg != nil && strings.HasPrefix(g.Pkg.Pkg.Path(), core.ModPath) {
+					r.Violation(rule, core.FnName(fn)+":writes-global:"+g.Name(), p.InstrPos(x), "a package-level variable is written on a consensus path: process-local state that differs between nodes with different histories (restart, state sync)")
+					return
+				}
+				if x.Addr != root && fromKeeperField(x.Addr) {
+					if _, isLoad := root.(*ssa.UnOp); isLoad {
+						r.Violation(rule, core.FnName(fn)+":writes-through-keeper-field", p.InstrPos(x), "memory reachable from a Keeper field is written on a consensus path: process-local state (a cache) that is not part of the committed store")
+					}
+				}
+			case ssa.CallInstruction:
+				// a pointer held in a Keeper field handed to a custom function that writes through it
+				c := x.Common()
+				var actuals []ssa.Value
+				if c.IsInvoke() {
+					actuals = append(actuals, c.Value)
+				}
+				actuals = append(actuals, c.Args...)
+				for _, cal := range p.Callees(x) {
+					for i, prm := range cal.Params {
+						if i >= len(actuals) {
+							continue
+						}
+						if _, isPtr := prm.Type().Underlying().(*types.Pointer); !isPtr || !fromKeeperField(actuals[i]) {
+							continue
+						}
+						if strings.Contains(prm.Type().String(), "codec") || strings.Contains(prm.Type().String(), "cosmos-sdk") {
+							continue
+						}
+						writes := false
+						allInstrs(cal, func(in2 ssa.Instruction) {
+							if st, ok := in2.(*ssa.Store); ok {
+								root := st.Addr
+								for j := 0; j < 8; j++ {
+									if fa, ok := root.(*ssa.FieldAddr); ok {
+										root = fa.X
+									} else {
+										break
+									}
+								}
+								if root == ssa.Value(prm) && st.Addr != ssa.Value(prm) {
+									writes = true
+								}
+							}
+						})
+						if writes {
+							r.Violation(rule, core.FnName(fn)+":writes-through-keeper-field", p.InstrPos(x), "an object held in a Keeper field is modified ("+core.FnName(cal)+") on a consensus path: process-local state (a cache) that is not part of the committed store")
+						}
+					}
+				}
+			case *ssa.MapUpdate:
+				n++
+				if fromKeeperField(x.Map) {
+					r.Violation(rule, core.FnName(fn)+":writes-keeper-map", p.InstrPos(x), "a map held in a Keeper field is updated on a consensus path: process-local state that is not part of the committed store")
+				}
+			}
+		})
+	}
+	r.Ok(rule, "scope:no-process-local-state", "", fmt.Sprintf("%d stores/map updates examined in %d functions: none targets a package-level variable or memory held in a Keeper field", n, len(funcs)))
+}
+
+// gettersFaithful: every store getter of the module (a function recognised as "reads the record under the key built
+// from its parameters") returns, on every path, the variable that the single store read was decoded into — or that
+// variable still at its zero value — and nothing else is written into that variable. The authorisation rules compare
+// "the loaded record" with the signer and then write it back under its own key: a getter that can hand out a record
+// which is not the one stored under the requested key turns those checks against the wrong record.
+func gettersFaithful(r *core.Run, rule, module string) int {
+	p := r.Prog
+	n := 0
+	for _, fn := range moduleFuncs(p, module) {
+		gi := p.StoreGetter(fn)
+		if gi == nil || gi.Module != module {
+			continue
+		}
+		if _, isStruct := derefStruct(fn.Signature.Results().At(0).Type()); !isStruct {
+			continue
+		}
+		decodes := false
+		allInstrs(fn, func(in ssa.Instruction) {
+			if c, ok := in.(ssa.CallInstruction); ok {
+				name := core.CalleeFullName(c)
+				if strings.Contains(name, "codec") && (strings.HasSuffix(name, ".MustUnmarshal") || strings.HasSuffix(name, ".Unmarshal")) {
+					decodes = true
+				}
+			}
+		})
+		if !decodes {
+			continue // an indirection (reads a key, delegates to another getter)
+		}
+		n++
+		r.Analysed(core.FnName(fn))
+		construct := core.FnName(fn) + ":getter-faithful"
+		nGet := 0
+		for _, o := range p.StoreOps(fn) {
+			if o.Kind == "Get" || o.Kind == "Iterate" {
+				nGet++
+			}
+		}
+		bad := ""
+		if nGet != 1 {
+			bad = fmt.Sprintf("%d store reads instead of one", nGet)
+		}
+		var target *ssa.Alloc
+		for _, b := range fn.Blocks {
+			ret, ok := b.Instrs[len(b.Instrs)-1].(*ssa.Return)
+			if !ok {
+				continue
+			}
+			u, ok := ret.Results[0].(*ssa.UnOp)
+			if !ok {
+				bad = "a return yields a value that is not the decoded record variable (" + p.InstrPos(ret) + ")"
+				continue
+			}
+			al, ok := u.X.(*ssa.Alloc)
+			if !ok || (target != nil && al != target) {
+				bad = "returns yield different variables (" + p.InstrPos(ret) + ")"
+				continue
+			}
+			target = al
+		}
+		if target != nil && bad == "" {
+			var scan func(addr ssa.Value)
+			scan = func(addr ssa.Value) {
+				if addr.Referrers() == nil {
+					return
+				}
+				for _, ref := range *addr.Referrers() {
+					switch x := ref.(type) {
+					case *ssa.Store:
+						if x.Addr == addr {
+							if u, isLoad := x.Val.(*ssa.UnOp); isLoad && u.X == addr {
+								continue
+							}
+							if !isZeroInit(x.Val) {
+								bad = "the returned variable is assigned besides the decode (" + p.InstrPos(x) + ")"
+							}
+						}
+					case *ssa.FieldAddr:
+						scan(x)
+					}
+				}
+			}
+			scan(target)
+		}
+		r.Check(bad == "", rule, construct, p.Pos(fn.Pos()), "returns the record decoded from the single read under the requested key (or the zero value)", "the getter does not simply return the record stored under the requested key: "+bad)
+	}
+	return n
+}
+
+// genesisImportsAll: every loop of the module's InitGenesis that writes records performs the write for every
+// element: the loop is left only when the list is exhausted (or by panic/failure) and no path through the loop body
+// skips the write. A record in the genesis file that import silently drops is state lost by the round trip.
+func genesisImportsAll(r *core.Run, rule, module string) int {
+	p := r.Prog
+	initFn, _ := p.GenesisEntries(module)
+	if initFn == nil {
+		r.Undecided(rule, module+":InitGenesis:anchor-missing", "", "InitGenesis not found")
+		return 0
+	}
+	n := 0
+	for _, fn := range p.Summary(initFn).Funcs {
+		if core.ModuleOf(fn) != module && fn != initFn {
+			continue
+		}
+		for _, e := range p.Effects(fn) {
+			isSet := false
+			prefix := ""
+			for _, o := range e.Store {
+				if o.Kind == "Set" && o.Module == module {
+					isSet, prefix = true, o.Prefix
+				}
+			}
+			eb := e.Instr.Block()
+			if !isSet || !core.InCycle(eb) {
+				continue
+			}
+			n++
+			r.Analysed(core.FnName(fn))
+			var header *ssa.BasicBlock
+			for _, b := range fn.Blocks {
+				if !core.SameLoop(b, eb) {
+					continue
+				}
+				for _, pr := range b.Preds {
+					if !core.SameLoop(pr, eb) {
+						header = b
+					}
+				}
+			}
+			bad := ""
+			for _, b := range fn.Blocks {
+				if !core.SameLoop(b, eb) || b == header {
+					continue
+				}
+				for _, sc := range b.Succs {
+					if !core.SameLoop(sc, eb) && !endsInPanicOrFailure(p, fn, sc) {
+						bad = "the loop can be left early at " + p.InstrPos(b.Instrs[len(b.Instrs)-1])
+					}
+				}
+			}
+			// a way round the loop that avoids the write
+			if header != nil && bad == "" {
+				seen := map[*ssa.BasicBlock]bool{}
+				stack := []*ssa.BasicBlock{}
+				for _, sc := range header.Succs {
+					if core.SameLoop(sc, eb) && sc != eb {
+						stack = append(stack, sc)
+					}
+				}
+				if header == eb {
+					stack = nil
+				}
+				for len(stack) > 0 {
+					b := stack[len(stack)-1]
+					stack = stack[:len(stack)-1]
+					if seen[b] || b == eb {
+						continue
+					}
+					seen[b] = true
+					if b == header {
+						bad = "an element can be skipped (a path through the loop body avoids the write)"
+						break
+					}
+					for _, sc := range b.Succs {
+						if core.SameLoop(sc, eb) {
+							stack = append(stack, sc)
+						}
+					}
+				}
+			}
+			r.Check(bad == "", rule, module+":import-every-element:"+prefix, p.InstrPos(e.Instr), "every element of the genesis list is written", "InitGenesis does not write every element of the list under "+module+"/"+prefix+": "+bad+" — records present in the genesis file are silently dropped on import")
+		}
+	}
+	return n
+}
+
+// paramPairTable: parameter key text -> Params field it addresses, confirmed by reading the pinned tree. Governance
+// proposals and the param subspace address a parameter by its key; keeper code reads the field. The two agree only
+// through the pair table of ParamSetPairs.
+var paramPairTable = map[string]map[string]string{
+	"storage": {"ProofWindow": "ProofWindow", "ChunkSize": "ChunkSize", "AttestFormSize": "AttestFormSize", "AttestMinToPass": "AttestMinToPass",
+		"CollateralPrice": "CollateralPrice", "CheckWindow": "CheckWindow", "Referrals": "ReferralCommission", "POLRatio": "PolRatio",
+		"PricePerTbPerMonth": "PricePerTbPerMonth", "DepositAccount": "DepositAccount", "MissesToBurn": "MissesToBurn", "PriceFeed": "PriceFeed",
+		"MaxContractAgeInBlocks": "MaxContractAgeInBlocks"},
+	"jklmint": {"MintDenom": "MintDenom", "TokensPerBlock": "TokensPerBlock", "DevGrants": "DevGrantsRatio", "StakerRatio": "StakerRatio",
+		"MintIncrease": "MintDecrease", "StorageStipend": "StorageStipendAddress", "ProviderRatio": "StorageProviderRatio"},
+}
+
+// paramPairsConsistent: every pair of the module's ParamSetPairs binds its key to the field of that name in the
+// table above (a key bound to another field makes a by-key parameter change land in the wrong parameter while
+// genesis, SetParams and all keeper code still round-trip).
+func paramPairsConsistent(r *core.Run, rule, module string) {
+	p := r.Prog
+	fn := p.FuncByName("x/"+module+"/types", "Params", "ParamSetPairs")
+	if fn == nil {
+		r.Undecided(rule, module+":ParamSetPairs:anchor-missing", "", "Params.ParamSetPairs not found")
+		return
+	}
+	r.Analysed(core.FnName(fn))
+	// key variables: package-level []byte initialised from a string constant
+	keyText := map[*ssa.Global]string{}
+	if initFn := fn.Pkg.Func("init"); initFn != nil {
+		allInstrs(initFn, func(in ssa.Instruction) {
+			st, ok := in.(*ssa.Store)
+			if !ok {
+				return
+			}
+			g, ok := st.Addr.(*ssa.Global)
+			if !ok {
+				return
+			}
+			v := st.Val
+			for i := 0; i < 3; i++ {
+				if cv, ok := v.(*ssa.Convert); ok {
+					v = cv.X
+				}
+			}
+			if c, ok := v.(*ssa.Const); ok && c.Value != nil && c.Value.Kind() == constant.String {
+				keyText[g] = constant.StringVal(c.Value)
+			}
+		})
+	}
+	table := paramPairTable[module]
+	seen := map[string]bool{}
+	allInstrs(fn, func(in ssa.Instruction) {
+		c, ok := in.(*ssa.Call)
+		if !ok || !strings.HasSuffix(core.CalleeFullName(c), "params/types.NewParamSetPair") || len(c.Call.Args) < 2 {
+			return
+		}
+		var key string
+		if u, ok := c.Call.Args[0].(*ssa.UnOp); ok {
+			if g, ok := u.X.(*ssa.Global); ok {
+				key = keyText[g]
+			}
+		}
+		field := ""
+		v := c.Call.Args[1]
+		if mi, ok := v.(*ssa.MakeInterface); ok {
+			v = mi.X
+		}
+		if fa, ok := v.(*ssa.FieldAddr); ok {
+			field = core.FieldName(fa.X.Type(), fa.Field)
+		}
+		want, known := table[key]
+		if !known {
+			return
+		}
+		seen[key] = true
+		r.Check(field == want, rule, module+":param-key:"+key, p.InstrPos(c), "key "+key+" addresses Params."+want, "parameter key "+key+" is bound to Params."+field+" instead of Params."+want+": a governance change of "+key+" alters another parameter, while genesis and keeper code keep round-tripping")
+	})
+	for k := range table {
+		if !seen[k] {
+			r.Undecided(rule, module+":param-key:"+k+":anchor-missing", p.Pos(fn.Pos()), "no pair with this key in ParamSetPairs")
+		}
+	}
+}
+
+// exhaustiveEnumeration: the functions enumerate store records exhaustively: no SDK pagination helper (a nil page
+// request means the default page size of 100) and every iterator loop is left only when the iterator is exhausted
+// (or by a panic / failing return). Returns the number of iterator loops examined.
+func exhaustiveEnumeration(r *core.Run, rule, m string, funcs []*ssa.Function) int {
+	p := r.Prog
+	nIter := 0
+	for _, fn := range funcs {
+		allInstrs(fn, func(in ssa.Instruction) {
+			call, ok := in.(ssa.CallInstruction)
+			if !ok {
+				return
+			}
+			if ext := core.ExtCallee(call); ext != nil && ext.Pkg != nil && strings.HasSuffix(ext.Pkg.Pkg.Path(), "cosmos-sdk/types/query") {
+				r.Violation(rule, m+":export-paginated:"+fn.Name(), p.InstrPos(call), "ExportGenesis reaches "+ext.Name()+" of the SDK query package: a nil page request means the default page size (100 records), so the export silently stops after the first page")
+			}
+		})
+		// iterator loops leave only through Valid()=false (or a panic)
+		for _, b := range fn.Blocks {
+			ifi, ok := b.Instrs[len(b.Instrs)-1].(*ssa.If)
+			if !ok {
+				continue
+			}
+			vc, ok := ifi.Cond.(*ssa.Call)
+			if !ok || !vc.Call.IsInvoke() || vc.Call.Method.Name() != "Valid" {
+				continue
+			}
+			nIter++
+			for _, lb := range fn.Blocks {
+				if !core.SameLoop(lb, b) {
+					continue
+				}
+				for _, sc := range lb.Succs {
+					if core.SameLoop(sc, b) || lb == b {
+						continue
+					}
+					if endsInPanicOrFailure(p, fn, sc) {
+						continue
+					}
+					r.Violation(rule, m+":export-loop-exits-early:"+fn.Name(), p.InstrPos(lb.Instrs[len(lb.Instrs)-1]), "an iteration on the export path can end before the iterator is exhausted: records after that point are not exported")
+				}
+			}
+			r.Ok(rule, m+":export-loop:"+fn.Name(), p.InstrPos(ifi), "iteration ends only when the iterator is exhausted")
+		}
+	}
+	return nIter
 }
